@@ -227,7 +227,7 @@ CHECKS = {
                    "requires every parallel result to equal its sequential result, zero race-detector reports, no dead child",
         level_note="real schedules are sampled, not controlled; the data-race sensor is Go's race detector (reports read from its "
                    "log files); pool events are followed for the first 300 Writers of a program",
-        rule="program = Pool events (one per pool operation of packet.Writer) + Seq + Par events (one per call) + End (race "
+        rule="program = Pool events (one per pool operation of packet.Writer) + Par events (one per call: its result on its goroutine and alone) + End (race "
              "report count, child died); distinct = distinct Pool/Par/End events",
         assumptions=["Go race detector", "operations are deterministic functions of (kind, seed); results compared by length+FNV-64 digest",
                      "the hook reports get after the buffer was taken and put before it goes back, ordered by a sequence number "
